@@ -199,6 +199,18 @@ where T: yui::Integer + Bridge<O = Z> + DivRound, for<'x> &'x T: yui::IntOps<T> 
     match rng.below(6) {
         0 => { let k = T::gen(rng, Mag::Small); ao = &bo * &k + &bo / z(2) }
         1 => { let k = T::gen(rng, Mag::Word); ao = &bo * &k + &bo / z(2) + z(rng.range(-1, 1)) }
+        2 => {
+            // the double-rounding window of any floating-point shortcut: |b| in [2^49, 2^54), quotient a hair
+            // beside a tie, |a| around 2^53 or below
+            let e = rng.urange(49, 53) as u32;
+            let mut b = (z(1) << e) + z(rng.range(0, (1i64 << 49) - 1)) * z(rng.range(1, 15));
+            if rng.chance(1, 2) { b = &b + z(1) - (&b % z(2)) } // mostly odd
+            if rng.chance(1, 2) { b = -b }
+            let k = z(rng.range(-2, 2));
+            let half = (&b - z(1)) / z(2);
+            let cand = &b * &k + half + z(rng.range(-1, 1));
+            if T::try_from_o(&cand).is_some() && T::try_from_o(&b).is_some() { ao = cand; bo = b }
+        }
         _ => {}
     }
     let (Some(a), Some(b)) = (T::try_from_o(&ao), T::try_from_o(&bo)) else { ctx.inconclusive("generator_unrepresentable"); return };
